@@ -13,6 +13,9 @@ SIG_T = {
     "f": (2, []), "p": (2, []), "f3": (3, []), "p3": (3, []), "f4": (4, []), "v": (1, []), "c": (0, []), "d": (0, []),
     "g": (0, [0]), "h": (0, [0, 0]), "lam": (0, [1]), "let": (0, [1, 0]),
     "k": (0, [0, 1]), "sum": (0, [0, 2]),
+    # a direct slot AFTER the child in the library's syntax, W(AppliedId, Slot) / Wb(Bind<AppliedId>, Slot); in this DSL the
+    # slot is written first like every direct slot: (w 1 (f 1 2)) is the library's (w (f $1 $2) $1)
+    "w": (1, [0]), "wb": (1, [1]),
 }
 
 def tokenize(s):
@@ -231,7 +234,21 @@ U10 = universe("U10", 5, [
     (F4(1, 2, 3, 4), "(g (f4 1 2 3 4))"),
 ], note="4-slot class with a rotating self-reference; 4 names per equation, pool 5")
 
-ALL = {"U10": U10, "U9": U9, "U8": U8, "U7": U7, "U1": U1, "U2": U2, "U3": U3, "U4": U4, "U5": U5, "U6": U6}
+# U11 "slot after child": nodes w(child, slot) whose direct slot comes after a symmetric child and repeats one of its
+# arguments: the weak shape numbers slots over the WHOLE node, so the group variant w(f(y,x), x) of w(f(x,y), x) is a
+# different node (w(f(1,2),1) vs w(f(1,2),2)) although the children's invocations look alike.
+U11 = universe("U11", 4, [
+    (F12, F21),
+    ("(w 1 (f 1 2))", "(w 1 (f 1 3))"),
+    ("(w 1 (f 1 2))", V1),
+    ("(w 1 (f 1 2))", "(w 2 (f 1 2))"),
+    ("(wb 1 2 (f 1 2))", "(wb 1 2 (f 2 1))"),
+    ("(wb 1 2 (f 1 2))", V1),
+    (F12, P12),
+], base=["(w 1 (f 1 2))", "(w 2 (f 1 2))", "(wb 1 2 (f 1 2))", "(wb 1 1 (f 1 2))", "(g (w 1 (f 1 2)))"],
+   note="direct slot fields after a (symmetric) child")
+
+ALL = {"U11": U11, "U10": U10, "U9": U9, "U8": U8, "U7": U7, "U1": U1, "U2": U2, "U3": U3, "U4": U4, "U5": U5, "U6": U6}
 
 if __name__ == "__main__":
     out = os.path.dirname(os.path.abspath(__file__))
